@@ -12517,10 +12517,11 @@ C_<TN_, TA_, SG_, TH_, TS_...>::resolveRandom(Control& control,
 				return i;
 			}
 
-			last = i;
+			if (utilities[i] > 0.0f)
+				last = i;
 		}
 
-	// 'sum' is accumulated with rounding, 'cursor' can overshoot the last candidate
+	// 'sum' is accumulated with rounding, 'cursor' can overshoot the last candidate with a non-empty interval
 	HFSM2_LOG_RANDOM_RESOLUTION(control.context(), HEAD_ID, last, random);
 
 	return last;
